@@ -25,9 +25,27 @@ EXPLANATION = (
     "with first_time=False, always re-surveys (_update_servermap) before _modify_once, and the modifier is applied "
     "to the freshly downloaded contents; (9) the storage server applies write vectors only under the truth of "
     "_evaluate_test_vectors over the same vectors and shares, which returns False on the first failing vector, and "
-    "returns that verdict. "
+    "returns that verdict, and a test vector is evaluated against anything but the stored share (EmptyShare) only after "
+    "observing that the share is absent; (10) in _got_write_answer no local (or never-bound name) is read before it is "
+    "bound on a path from which self.surprised = True is still ahead - the NameError would end the handler and be swallowed "
+    "by finish_publishing's DeferredList, and the publish would report success; (11) the value compared with "
+    "self._checkstring is answer[1][shnum][i] for the loop variable over a surprise set that starts from every share in "
+    "the answer, from which only this writer's own share number and share numbers obtained under an equality with the "
+    "answering server (writer.server) are removed; both write proxies send a read vector list with an entry i; "
+    "publish()/update() set writer.server to the server whose storage server the writer wraps; (12) "
+    "Publish.finish_publishing appends every writer Deferred to the list it returns a DeferredList of (never "
+    "fireOnOneCallback, list never reset), and push_everything_else runs _push only as a callback of it; (13) in _push every "
+    "path after observing self.surprised calls self._failure(); (14) _apply returns the Deferred of self._upload, "
+    "_modify_once returns the Deferred _apply is chained on, the callbacks registered in _modify_and_retry/_retry return "
+    "the _modify_once/_modify_and_retry calls they make, and both functions return their Deferred on every path; (15) "
+    "set_checkstring stores (0, len(cs), cs) only after cs is known non-empty (tested against b'' / truth / len, or "
+    "freshly struct.pack'ed), because (0, 0, b'') is satisfied by any share contents. "
     "Undecided: the (writers+1)*k <= N recoverability arithmetic over interleavings, byte-level comparison inside "
-    "check_testv, wire conversion of the vectors (C31).")
+    "check_testv, wire conversion of the vectors (C31); exceptions other than unbound names raised inside "
+    "_got_write_answer before the marking (they are swallowed by the DeferredList as well); which servermap mode the "
+    "first/later attempts of modify() use and the new sequence number (value-level); that self._checkstring holds the "
+    "checkstring the writers expect (a wrong value only produces spurious surprises); placement bookkeeping "
+    "(goal/placed/bad_servers), leases and timing/status code.")
 TECHNIQUE = "static analysis: CFG path rules over normalised edge facts, reaching definitions, Deferred chain model, who-may-write sweeps"
 
 PUB = "mutable.publish:Publish"
@@ -375,8 +393,11 @@ def run(ctx: Context):
     # -- 11. what is compared, and what is withheld from the comparison -----------
     with ctx.rule("C12.11", "R1/E6", "_got_write_answer compares self._checkstring with answer[1][shnum][i] for every shnum "
                   "of a surprise set that starts from all shares in the answer; only this writer's share and shares tied "
-                  "to the answering server are withheld; both proxies send a read vector with index i", expected=4) as r:
+                  "to the answering server are withheld; both proxies send a read vector with index i; publish()/update() give "
+                  "every writer the .server the handler reads", expected=6) as r:
         _surprise_set(r, idx, idx.func(PUB + "._got_write_answer"))
+        for mname in ("publish", "update"):
+            _writer_server_attr(r, idx.func(PUB + "." + mname), idx.func(PUB + "._got_write_answer"))
 
     # -- 12. every answer is awaited before success can be reported ---------------
     with ctx.rule("C12.12", "E7", "Publish.finish_publishing returns a DeferredList over a list that received every writer "
@@ -1274,8 +1295,8 @@ def _answers_awaited(r, idx):
 
         def collected(n, _dv=dv):
             for c in calls_at(n, "append"):
-                if isinstance(c.func.value, ast.Name) and len(c.args) == 1 and isinstance(c.args[0], ast.Name) \
-                        and c.args[0].id == _dv:
+                if isinstance(c.func, ast.Attribute) and isinstance(c.func.value, ast.Name) and len(c.args) == 1 \
+                        and isinstance(c.args[0], ast.Name) and c.args[0].id == _dv:
                     return c.func.value.id
             return None
 
@@ -1300,7 +1321,8 @@ def _answers_awaited(r, idx):
             if L:
                 lists.add(L)
     for L in sorted(lists):
-        app = lambda n, _L=L: any(isinstance(c.func.value, ast.Name) and c.func.value.id == _L for c in calls_at(n, "append"))
+        app = lambda n, _L=L: any(isinstance(c.func, ast.Attribute) and isinstance(c.func.value, ast.Name)
+                                  and c.func.value.id == _L for c in calls_at(n, "append"))
         for (s, w) in find_path_from_to_avoiding(cfg, app, lambda n: False, ends=stores(L)):
             r.violation(fp, fp.loc(s.ast), "the list %s of writer Deferreds is reset after Deferreds were added to it" % L, w)
     fnorm = FlowNorm(fp)
@@ -1493,3 +1515,48 @@ def _nonempty_vector(r, fn):
                 r.violation(fn, fn.loc(e), "%s can store the test vector (0, len(%s), %s) for an empty %s: (0, 0, b'') is "
                             "satisfied by any share contents, so the write overwrites whatever another writer put there "
                             "(path: %s)" % (short(fn), cs, cs, cs, w.brief()), w)
+
+
+def _writer_server_attr(r, fn, ga):
+    """_got_write_answer reads <writer>.server (an AttributeError there is swallowed like any other exception, and a wrong
+    server would mis-direct the surprise comparison): every writer built by publish()/update() gets .server set to the
+    server whose storage server it wraps before the loop moves on."""
+    wr = first_positional_params(ga)[1]
+    if not any(isinstance(x, ast.Attribute) and attr_path(x) == wr + ".server" for x in func_own_nodes(ga)):
+        return
+    cfg = fn.cfg()
+    fnorm = FlowNorm(fn)
+    creators = [n for n in cfg.nodes if n.kind == "stmt" and isinstance(n.ast, ast.Assign)
+                and isinstance(n.ast.value, ast.Call) and len(n.ast.value.args) >= 2
+                and isinstance(n.ast.value.args[1], ast.Call) and call_tail(n.ast.value.args[1]) == "get_storage_server"
+                and isinstance(n.ast.value.args[1].func, ast.Attribute)]
+    if not creators:
+        raise AnchorVanished("%s: writer construction not found" % short(fn))
+    for cn in creators:
+        r.site(fn, cn.ast, "writer.server")
+        t = cn.ast.targets[0]
+        if len(cn.ast.targets) != 1 or not isinstance(t, ast.Name):
+            r.violation(fn, fn.loc(cn.ast), "the writer is not bound to a plain local: cannot follow its .server attribute")
+            continue
+        W, S = t.id, fnorm.norm(cn, cn.ast.value.args[1].func.value)
+
+        def sets(n, _W=W, _S=S):
+            if n.kind == "stmt" and (_W + ".server") in node_stores(n):
+                v = assign_value(n, _W + ".server")
+                return v is not None and fnorm.norm(n, v) == _S
+            return False
+
+        def transfer(n, lab, nxt, st, _cn=cn):
+            if lab == "exc" or (n is not _cn and n.kind in ("iter", "exit")):
+                return None
+            return st or sets(n)
+        visited, parent = explore(cfg, False, transfer, start=cn)
+        r.count(len(visited))
+        for (nid, st) in sorted(visited):
+            nd = cfg.nodes[nid]
+            if nd is not cn and nd.kind in ("iter", "exit") and not st:
+                w = witness(cfg, parent, (nid, st))
+                r.violation(fn, fn.loc(cn.ast), "the writer %s can be left without %s.server = %s: _got_write_answer reads "
+                            "writer.server, so its answer handler raises (swallowed by the DeferredList) or compares the "
+                            "surprise shares against another server's writers (path: %s)" % (W, W, S, w.brief()), w)
+                break
